@@ -14,9 +14,10 @@ VARIABLES inbox,    \* acct -> set of [from, time, c]   (what the inbox query li
           names,    \* name -> acct (name service resolution)
           time,
           sent, deleted,   \* ghosts: every notification successfully sent / deleted by its recipient
+          gblocks,         \* ghost: every (owner, blocked) pair of a successful block-senders message
           last
 vars == <<inbox, blocks, names, time>>
-ghosts == <<sent, deleted>>
+ghosts == <<sent, deleted, gblocks>>
 Fixed(x) == x \in FIX
 Resolve(t) == IF t \in Acc THEN t ELSE IF t \in DOMAIN names THEN names[t] ELSE "none"
 Fail(lbl) == UNCHANGED vars /\ last' = [lbl EXCEPT !.ok = FALSE]
@@ -51,6 +52,8 @@ GhostNext ==
   LET l == last' IN
   /\ sent' = IF l.a = "create" /\ l.ok
              THEN sent \cup {[to |-> Resolve(l.to), from |-> l.s, time |-> time, c |-> l.c, n |-> Cardinality(sent)]} ELSE sent
+  /\ gblocks' = IF l.a = "block" /\ l.ok
+                THEN gblocks \cup {<<l.s, Resolve(l.targets[i])>> : i \in DOMAIN l.targets} ELSE gblocks
   /\ deleted' = IF l.a = "delete"
                 THEN deleted \cup {x \in sent : x.to = l.s /\ x.from = l.from /\ x.time = l.t} ELSE deleted
 
@@ -73,11 +76,13 @@ C18_NoLoss        == NoOtherLost(inbox, sent, deleted)
 C18_Step ==
   LET l == last' IN
   /\ (l.a = "create") =>
-        /\ (Resolve(l.to) = "none" \/ <<Resolve(l.to), l.s>> \in blocks) => ~l.ok
+        /\ (Resolve(l.to) = "none" \/ <<Resolve(l.to), l.s>> \in blocks \/ <<Resolve(l.to), l.s>> \in gblocks) => ~l.ok
         /\ ~l.ok => inbox' = inbox
         /\ \A a \in DOMAIN inbox : a # Resolve(l.to) => inbox'[a] = inbox[a]
   /\ (l.a = "delete") => \A a \in DOMAIN inbox : a # l.s => inbox'[a] = inbox[a]
   /\ (l.a \in {"repoint", "tick"}) => inbox' = inbox
+\* a successful block-senders message is on record for every target, and the record stays
+C18_BlockRecorded == gblocks' \subseteq blocks'
 \* a block-senders message makes no entry appear in any inbox (other than the known finding, reported separately)
 C18_BlockSilent ==
   (last'.a = "block") => \A a \in DOMAIN inbox :
